@@ -92,7 +92,17 @@ def _merge_fields(ctx, f, label, self_arg=1, dflt_arg=2):
                            "`%s` is merged as %s.or_else(|| %s)" % (fname, a, b))
             elif m == "Iterator::collect":
                 ch = peel(tree.kids[0])
-                if ch.kind == "call" and method_name(ch.a) == "Iterator::chain":
+                while ch.kind == "call" and method_name(ch.a) in ("Iterator::cloned", "Iterator::copied") and ch.kids:
+                    ch = peel(ch.kids[0])
+                ftype = next((x["ty"] for x in adt["variants"][0]["fields"] if x["name"] == fname), "")
+                if ch.kind == "call" and method_name(ch.a) == "Iterator::chain" and "Vec<" in ftype:
+                    first, second = arg_field(ch.kids[0]), arg_field(ch.kids[1])
+                    layers = {x[0] for x in (first, second) if x}
+                    names = {x[1] for x in (first, second) if x}
+                    verdict = (layers == {self_arg, dflt_arg} and names == {fname},
+                               "list `%s` accumulates both layers (%s chained with %s)" % (fname, first, second),
+                               "list `%s` does not accumulate self and defaults (%s chained with %s)" % (fname, first, second))
+                elif ch.kind == "call" and method_name(ch.a) == "Iterator::chain":
                     first, second = arg_field(ch.kids[0]), arg_field(ch.kids[1])
                     # later entries win when collecting into a map
                     verdict = (first == (dflt_arg, fname) and second == (self_arg, fname),
@@ -106,6 +116,33 @@ def _merge_fields(ctx, f, label, self_arg=1, dflt_arg=2):
                            "nested `%s` merged as %s.with_defaults_from(%s)" % (fname, a, b))
             elif m == "Clone::clone":
                 pass
+        if verdict is None and tree.kind == "phi" and len(tree.kids) == 2:
+            # explicit match: `match &self.f { Some(v) => Some(v.clone()), None => defaults.f.clone() }`
+            from ..cfgq import switches, variant_edges
+            somes = [k for k in tree.kids if peel(k).kind == "agg" and str(peel(k).a[0]).endswith("Some")]
+            rest = [k for k in tree.kids if k not in somes]
+            if len(somes) == 1 and len(rest) == 1:
+                pay = peel(somes[0]).kids[0]
+                from_self = any(n.kind == "variant" and n.a == "Some" and arg_field(n.kids[0]) == (self_arg, fname) for n in pay.walk())
+                lower = arg_field(rest[0]) == (dflt_arg, fname)
+                edge_ok = False
+                for sb_, st_ in switches(f):
+                    ve_, rv_ = variant_edges(f, sb_)
+                    if ve_ is None or set(ve_) != {"Some", "None"}:
+                        continue
+                    if arg_field(o.operand({"copy": rv_["place"]})) != (self_arg, fname):
+                        continue
+                    none_reg = set(f.reachable(ve_["None"])) - set(f.reachable(ve_["Some"]))
+                    some_reg = set(f.reachable(ve_["Some"])) - set(f.reachable(ve_["None"]))
+                    opl = op.get("move") or op.get("copy")
+                    d_rest = list(f.defs.get(f.canon_place(opl)["l"], [])) if opl else []
+                    blocks_some = {d[0] for d in d_rest if peel(o._def(d, 0, ())).kind == "agg"}
+                    blocks_rest = {d[0] for d in d_rest} - blocks_some
+                    edge_ok = bool(blocks_some) and bool(blocks_rest) and blocks_some <= some_reg and blocks_rest <= none_reg
+                verdict = (from_self and lower and edge_ok,
+                           "`%s` = match self.%s { Some(v) => Some(v), None => defaults.%s }: the receiver layer wins" % (fname, fname, fname),
+                           "`%s` is merged by a match that does not prefer self.%s over defaults.%s (self payload: %s, fallback: %s, arms on the right edges: %s)"
+                           % (fname, fname, fname, from_self, arg_field(rest[0]), edge_ok))
         if verdict is None:
             # accumulate idiom: local = X.f.clone(); local.extend(Y.f.clone())
             base = arg_field(tree)
